@@ -305,6 +305,37 @@ struct checked_buffer
 };
 
 // ------------------------------------------------------------------------------------------------
+// scripted custom lexer: answers (term, length) as a function of the first byte, logs every call
+struct lexspec { int term[256]; int len[256]; };
+inline const lexspec* cur_lexspec = nullptr;
+
+template<class It> long iter_offset(const It& it)
+{
+    if constexpr (std::is_same_v<It, checked_buffer::iterator>) return it.pos;
+    else if constexpr (std::is_pointer_v<It>) return S.base ? long(it - S.base) : -1;
+    else return S.base ? long(&*it - S.base) : -1;
+}
+
+struct ScriptLexer
+{
+    template<class It, class ES>
+    ctpg::recognized_term match(ctpg::match_options, ctpg::source_point sp, It start, It end, ES&)
+    {
+        S.ev += "L";
+        if (start == end) { S.ev += "@end->fail;"; return ctpg::recognized_term{}; }
+        long off = iter_offset(start);
+        long rem = 0; { It i = start; while (!(i == end)) { ++i; ++rem; } }
+        unsigned char c = (unsigned char)*start;
+        put(off); S.ev += ":"; put(rem); S.ev += ":"; put(sp.line); S.ev += ":"; put(sp.column); S.ev += "->";
+        int t = cur_lexspec ? cur_lexspec->term[c] : -1;
+        if (t < 0) { S.ev += "fail;"; return ctpg::recognized_term{}; }
+        long l = cur_lexspec->len[c]; if (l > rem) l = rem;
+        put(t); S.ev += ":"; put(l); S.ev += ";";
+        return ctpg::recognized_term(ctpg::size16_t(t), size_t(l));
+    }
+};
+
+// ------------------------------------------------------------------------------------------------
 inline std::string hex(std::string_view s)
 {
     static const char* d = "0123456789abcdef";
